@@ -43,6 +43,13 @@ class PlainBase(exc.JsonRpcError):
     """a client-side base class without a code of its own and without lookup override"""
 
 
+class CodedBase(exc.JsonRpcError):
+    """a client-side base class that also has a code of its own (a service's generic error): codes without a registered class
+    deserialise to it, registered codes to their classes"""
+    code = 5000
+    message = 'service error'
+
+
 class IndepBase(exc.JsonRpcError):
     """the 'independent clients errors' recipe of docs/source/pjrpc/errors.rst"""
 
@@ -73,14 +80,14 @@ class Custom2005(exc.JsonRpcError):
 GLOBAL: Dict[int, Type[exc.JsonRpcError]] = {
     -32700: exc.ParseError, -32600: exc.InvalidRequestError, -32601: exc.MethodNotFoundError,
     -32602: exc.InvalidParamsError, -32603: exc.InternalError, -32000: exc.ServerError,
-    2001: Custom2001, 2002: Custom2002, 2003: Custom2003, 2004: Custom2004, 2005: Custom2005, -32050: SrvRange, 3001: IndepA, 0: ZeroCode,
+    2001: Custom2001, 2002: Custom2002, 2003: Custom2003, 2004: Custom2004, 2005: Custom2005, -32050: SrvRange, 3001: IndepA, 0: ZeroCode, 5000: CodedBase,
 }
 
 BY_NAME: Dict[str, Type[exc.JsonRpcError]] = {
     'JsonRpcError': exc.JsonRpcError, 'ParseError': exc.ParseError, 'InvalidRequestError': exc.InvalidRequestError,
     'MethodNotFoundError': exc.MethodNotFoundError, 'InvalidParamsError': exc.InvalidParamsError,
     'InternalError': exc.InternalError, 'ServerError': exc.ServerError, 'Custom2001': Custom2001, 'Custom2002': Custom2002,
-    'Custom2003': Custom2003, 'Custom2004': Custom2004, 'Custom2005': Custom2005, 'SrvRange': SrvRange, 'PlainBase': PlainBase, 'IndepBase': IndepBase,
+    'Custom2003': Custom2003, 'Custom2004': Custom2004, 'Custom2005': Custom2005, 'SrvRange': SrvRange, 'PlainBase': PlainBase, 'CodedBase': CodedBase, 'IndepBase': IndepBase,
     'IndepA': IndepA, 'ZeroCode': ZeroCode,
 }
 
